@@ -47,13 +47,28 @@ type originOpts struct {
 func origins(v ssa.Value, o originOpts) []leaf {
 	var out []leaf
 	seen := map[ssa.Value]bool{}
+	type leafKey struct {
+		v        ssa.Value
+		from, to *ssa.BasicBlock
+	}
+	seenLeaf := map[leafKey]bool{}
 	var walk func(v ssa.Value, via, viaTo []*ssa.BasicBlock)
 	walk = func(v ssa.Value, via, viaTo []*ssa.BasicBlock) {
 		v = strip(v)
-		if seen[v] {
-			return
+		// inner nodes (phis and looked-through operations) are expanded once; a leaf is reported once per phi edge it
+		// arrives over, because the facts under which it flows differ from edge to edge
+		if _, isPhi := v.(*ssa.Phi); isPhi || len(via) == 0 {
+			if seen[v] {
+				return
+			}
+			seen[v] = true
+		} else {
+			k := leafKey{v, via[len(via)-1], viaTo[len(viaTo)-1]}
+			if seenLeaf[k] {
+				return
+			}
+			seenLeaf[k] = true
 		}
-		seen[v] = true
 		switch x := v.(type) {
 		case *ssa.Phi:
 			for i, e := range x.Edges {
